@@ -40,6 +40,11 @@ fn tdigest_variants(ctx: &Ctx) -> u64 {
         (-3.0, 9.0, vec![(-3.0, 1), (0.0, 10), (2.0, 40), (7.0, 5), (9.0, 1)], vec![]),
         (0.0, 100.0, (0..60).map(|i| (i as f64 * 100.0 / 59.0, 1 + (i % 4) as u64)).collect(), vec![]),
         (1.0, 4.0, vec![(1.0, 1), (2.0, 3), (4.0, 1)], vec![2.5, 3.0, 1.5]),
+        // heavy first / last centroids with min / max beyond their means (valid images the
+        // in-process algorithm never produces): the tail branches of rank and quantile
+        (0.0, 12.0, vec![(0.0, 1), (1.0, 1), (2.0, 1), (10.0, 8)], vec![]),
+        (-4.0, 12.0, vec![(1.0, 6), (2.0, 1), (3.0, 1), (12.0, 1)], vec![]),
+        (-4.0, 20.0, vec![(1.0, 5), (2.0, 2), (10.0, 7)], vec![]),
     ];
     for (min, max, cents, buffered) in &lists {
         for enc in Enc::ALL {
@@ -86,8 +91,8 @@ fn tdigest_variants(ctx: &Ctx) -> u64 {
                         // rank/quantile as the encoded centroid list requires (no buffered values)
                         if buffered.is_empty() && bad.is_empty() {
                             let r = tdm::RefDigest::new(*min, *max, &img.centroids);
-                            for i in 0..=16 {
-                                let q = i as f64 / 16.0;
+                            for i in 0..=64 {
+                                let q = i as f64 / 64.0;
                                 let v = min + (max - min) * q;
                                 let (gr, wr) = (d.rank(v).unwrap_or(f64::NAN), r.get_rank(v));
                                 let (gq, wq) = (d.quantile(q).unwrap_or(f64::NAN), r.get_quantile(q));
